@@ -477,11 +477,11 @@ def gen_case(draw):
 def kinds(tier):
     return [
         Kind("commit-grammar", run, strategy=gen_case(),
-             examples={"quick": 16000, "thorough": 800000}),
+             examples={"quick": 12000, "thorough": 800000}),
     ]
 
 
-REGISTERED = False
+REGISTERED = True
 LEVEL_TEXT = ("Commits are sampled from a grammar that combines every field the "
               "mapping handles (encodings x identities x timezones x signatures "
               "x merge tags x extra headers x message shapes); each is imported "
